@@ -14,6 +14,7 @@ import (
 	sdk "github.com/cosmos/cosmos-sdk/types"
 	"github.com/cosmos/cosmos-sdk/types/query"
 	"github.com/gogo/protobuf/proto"
+	"github.com/medibloc/panacea-core/v2/app"
 	aoltypes "github.com/medibloc/panacea-core/v2/x/aol/types"
 	didcrypto "github.com/medibloc/panacea-core/v2/x/did/client/crypto"
 	didtypes "github.com/medibloc/panacea-core/v2/x/did/types"
@@ -242,6 +243,20 @@ func genHostileQuery(t *rapid.T, live []string) world.QueryStep {
 
 var CfgC17 = reg(&MachineCfg{
 	Prop: "C17",
+	Setup: func(g *G, opt *world.Options) {
+		// state no transaction can leave behind but a genesis file can: owner strings that are
+		// no addresses, addresses of other lengths, tokens without creation time
+		cdc := app.MakeEncodingConfig().Codec
+		if g.chance("pnft-genesis-mode", 25) {
+			opt.PnftGenesis = g.genPnftGenesis(cdc, true)
+		}
+		if g.chance("aol-genesis-mode", 15) {
+			opt.AolGenesis = g.genAolGenesis(cdc, true)
+		}
+		if g.chance("did-genesis-mode", 15) {
+			opt.DidGenesis = g.genDidGenesis(cdc, world.DIDKeys())
+		}
+	},
 	Gens: []interface{}{"hostile_tx", 30, "hostile_query", 26, "aol", 10, "did", 8, "pnft", 10, "burn", 3, "authz", 3, "commit", 10},
 	Bias: map[string]int{"right-signers": 96, "exec": 10, "right-proof": 90, "adversarial-ids": 1},
 	Rule: "pipeline half of C17: hostile messages (boundary-directed fields, absent sub-messages, 255/256/70000-byte strings, NUL, invalid UTF-8, malformed addresses) are delivered as signed transactions, alone and inside authz exec, into a populated chain, hostile query requests (all 12 custom endpoints, extreme offsets and pagination, arbitrary request bytes, latest/historical/non-existing heights) are served, and further blocks are produced; oracle = no DeliverTx/Query returns baseapp's recovered-panic error and BeginBlock/EndBlock/Commit never panic; non-trivial = >=3 hostile txs and >=3 hostile queries that were decoded and reached the entry point",
